@@ -57,7 +57,9 @@ deriving Repr, Inhabited, BEq
 structure ClassD where
   name : String
   ports : List PortD                 -- constructor order
-  state : List (String × Int)        -- self.x = <int constant>, constructor order
+  state : List (String × Int)        -- integer state attributes with the value the constructed object HOLDS (the last constant
+                                     -- assigned in __init__), first-assignment order, one entry per name
+  inits : List (String × Int)        -- EVERY `self.x = <int constant>` of __init__, in order (a name may be assigned several times)
   consts : List (String × Int)       -- self.x = <constructor argument>: value substituted as a constant
   params : List (String × Int)       -- addParameter(name, value)
   isSeq : Bool                       -- clock() (true) or propagate() (false)
@@ -69,6 +71,13 @@ def lookup {α : Type} (l : List (String × α)) (n : String) : Option α :=
   match l with
   | [] => none
   | (k, v) :: r => if k == n then some v else lookup r n
+
+/-- value of the LAST assignment to `n` in a list of assignments -/
+def lastVal : List (String × Int) → String → Option Int
+  | [], _ => none
+  | (k, v) :: r, n => match lastVal r n with
+      | some w => some w
+      | none => if k == n then some v else none
 
 def ClassD.port? (c : ClassD) (a : String) : Option PortD := c.ports.find? (·.attr == a)
 
